@@ -253,11 +253,13 @@ FAMILIES = {
     "m2m-oneway": ([-1, -1], [_mm(0, 1, bwd=0)]),
     "m2m-self": ([-1], [_mm(0, 0)]),
     "m2m+tree": ([-1, -1], [_fk(0, 0), _mm(0, 1)]),
+    "parent-of-tree": ([-1, -1], [_fk(1, 0), _fk(1, 1)]),
+    "child-of-tree": ([-1, -1], [_fk(0, 0), _fk(1, 0)]),
     "inherit": ([-1, 0, -1], [_fk(0, 2), _fk(2, 1, o2m=0, post=1)]),
     "inherit-sub-fk": ([-1, 0, 0], [_fk(1, 2), _fk(2, 0, o2m=0)]),
 }
 # families all of whose cases are expected to satisfy the hypotheses of the guarded theorem
-IN_GUARD = {"o2m", "chain3", "tree", "tree-cascade", "m2m", "m2m-self", "m2m+tree", "mutual-backref"}
+IN_GUARD = {"o2m", "chain3", "tree", "tree-cascade", "m2m", "m2m-self", "m2m+tree", "mutual-backref", "parent-of-tree", "child-of-tree"}
 
 
 def _sub(classes, k, j):
@@ -354,12 +356,17 @@ def _small_scope(classes, rels, quick):
     return out
 
 
+def search_cases(rng, tier):
+    """search phase only (the tie is already broken): a much larger sample of the small-scope scripts"""
+    return gen_cases(rng, "search")
+
+
 def gen_cases(rng, tier):
     quick = tier != "thorough"
     cases = []
     for name, (classes, rels) in FAMILIES.items():
         ss = _small_scope(classes, rels, quick)
-        cap = 16 if quick else 1500
+        cap = 90 if tier == "search" else 16 if quick else 1500
         if len(ss) > cap:
             ss = rng.sample(ss, cap)
         for ops in ss:
